@@ -17,6 +17,23 @@
 static int in_pump;
 static int rc_tag;
 
+/* what the kernel "does" on the next write() calls of a LibVNCClient (rc_sched): k > 0 = takes at most k
+ * bytes, 0 = EAGAIN (the following select() for writing returns at once: the socket really is writable),
+ * k < 0 = EIO.  Exhausted: write() behaves normally. */
+#define MAXSCHED 4096
+static int wsched_fd = -1, wsched_n, wsched_i;
+static long wsched[MAXSCHED];
+ssize_t __real_write(int fd, const void *buf, size_t n);
+ssize_t __wrap_write(int fd, const void *buf, size_t n) {
+  if (fd >= 0 && fd == wsched_fd && wsched_i < wsched_n && n > 0) {
+    long k = wsched[wsched_i++];
+    if (k == 0) { errno = EAGAIN; return -1; }
+    if (k < 0) { errno = EIO; return -1; }
+    if ((size_t)k < n) n = (size_t)k;
+  }
+  return __real_write(fd, buf, n);
+}
+
 static conn *by_rc(rfbClient *cl) { int i; for (i = 0; i < MAXC; i++) if (C[i].used && C[i].is_rc && C[i].rc == (void *)cl) return &C[i]; return NULL; }
 
 static void clip_before_select(int nfds, fd_set *r) {
@@ -45,6 +62,7 @@ static void clip_screen_setup(rfbScreenInfoPtr s) { (void)s; }
 
 static void clip_teardown(void) {
   int i;
+  wsched_fd = -1; wsched_n = wsched_i = 0;
   for (i = 0; i < MAXC; i++)
     if (C[i].used && C[i].is_rc && C[i].rc) {
       rfbClient *cl = (rfbClient *)C[i].rc;
@@ -183,6 +201,20 @@ static int clip_op(const char *op, char *args) {
     free(b);
     print_state(op); return 1;
   }
+  if (!strcmp(op, "rc_sched")) {
+    conn *c; int p2 = 0; const char *q;
+    if (sscanf(args, "%d %n", &a[0], &p2) < 1) return 0;
+    c = by_id(a[0]);
+    wsched_n = wsched_i = 0; wsched_fd = -1;
+    if (c && c->is_rc && c->rc) {
+      wsched_fd = ((rfbClient *)c->rc)->sock;
+      for (q = args + p2; *q && wsched_n < MAXSCHED; ) {
+        wsched[wsched_n++] = strtol(q, (char **)&q, 10);
+        if (*q == ',') q++; else break;
+      }
+    }
+    print_state("rc_sched"); return 1;
+  }
   if (!strcmp(op, "rc_pump")) {
     conn *c; sscanf(args, "%d", &a[0]); c = by_id(a[0]);
     if (c && c->is_rc && c->rc && c->cl) {
@@ -191,6 +223,7 @@ static int clip_op(const char *op, char *args) {
       while (guard++ < 1000 && (cl->buffered > 0 || WaitForMessage(cl, 0) > 0)) {
         if (!HandleRFBServerMessage(cl)) {
           char e[32]; sprintf(e, "GD:%d", c->id); ev_add(e);
+          if (cl->sock == wsched_fd) wsched_fd = -1;
           close(cl->sock); cl->sock = -1; c->pfd = -1; rfbClientCleanup(cl); c->rc = NULL;
           break;
         }
